@@ -426,3 +426,10 @@ def run(ctx):
     ctx.borrow(c14.r7, {'C14.R7': 'C20.R8'},
                'the sizes handed to ::read and memmove in the byte transport are bounded by the buffer capacity and the '
                'buffered length; a consumed count above the buffered length must not reach the memmove')
+    ctx.borrow(c14.run, {'C14.R3': 'C20.R10'},
+               'the second byte of an adapter sequence is read from the transport buffer only if it is buffered: otherwise '
+               'the read goes beyond the received data (stale byte, or out of bounds when the buffer is full)')
+    import rules.C04 as c04
+    ctx.borrow(c04.run, {'C04.R2': 'C20.R11', 'C04.R6': 'C20.R12'},
+               'a request that is taken out of the queue and then dropped, or a wait loop with another exit, leaves a '
+               'client thread blocked forever or working on freed memory')
